@@ -156,7 +156,9 @@ fn p_inst(p: &P, slots: &BTreeMap<String, Name>, vars: &BTreeMap<String, T>) -> 
     }
 }
 
-pub const RULES: [(&str, &str, &str); 14] = [
+pub const RULES: [(&str, &str, &str); 16] = [
+    ("slots-and-var", "(b (f $a $b) ?x)", "(b ?x (g $a $b))"),
+    ("slots-and-var-under-binder", "(lam $z (b (f $z $a) ?x))", "(lam $z (b ?x (g $a $z)))"),
     ("dup", "(b ?x ?x)", "(u ?x)"),
     ("swap", "(b ?x ?y)", "(b ?y ?x)"),
     ("unwrap2", "(u (u ?x))", "?x"),
@@ -376,7 +378,7 @@ fn presentations(inst: &T) -> Vec<Presentation> {
     out
 }
 
-fn run_case(rule: usize, lhs_i: &T, rhs_i: &T, pr: &Presentation) -> Result<(Option<Fail>, u64), String> {
+fn run_case(rule: usize, lhs_i: &T, rhs_i: &T, pr: &Presentation, alts: &[(T, T)]) -> Result<(Option<Fail>, u64), String> {
     let nm = Naming::Numeric;
     let (name, lhs, rhs) = RULES[rule];
     let mut eg = EGraph::<Sym>::default();
@@ -405,8 +407,24 @@ fn run_case(rule: usize, lhs_i: &T, rhs_i: &T, pr: &Presentation) -> Result<(Opt
         // the presentation did not make the instance represented (harness expectation): out of scope
         return Ok((None, 2));
     };
+    // every other renaming of the pattern's slots whose left-side instance is represented beforehand must fire too
+    let alt_before: Vec<bool> = alts.iter().map(|(l, _)| lookup_rec_expr(&to_recexpr(l, nm), &eg).is_some()).collect();
     let rw: Vec<Rewrite<Sym>> = vec![Rewrite::new(name, lhs, rhs)];
     catch(|| apply_rewrites(&mut eg, &rw))?;
+    for (k, (l, r)) in alts.iter().enumerate() {
+        if !alt_before[k] {
+            continue;
+        }
+        let la = lookup_rec_expr(&to_recexpr(l, nm), &eg);
+        let ra = lookup_rec_expr(&to_recexpr(r, nm), &eg);
+        let ok = match (&la, &ra) {
+            (Some(a), Some(b)) => eg.eq(a, b),
+            _ => false,
+        };
+        if !ok {
+            return Ok((Some(("instance-did-not-fire".into(), format!("rule {name}: instance {} (also represented in the e-graph planted for {}) [{}]", l.to_sexp(), lhs_i.to_sexp(), pr.label), format!("after applying the rule once, the right-side instance {} looks up to {ra:?}, the left-side instance to {la:?}", r.to_sexp()))), 0));
+        }
+    }
     let rre = to_recexpr(rhs_i, nm);
     let l = lookup_rec_expr(&lre, &eg);
     let r = lookup_rec_expr(&rre, &eg);
@@ -436,7 +454,7 @@ impl Prop for FiresProp {
         vec!["instance_present_only_through_union", "child_class_with_symmetry", "repeated_variable_with_different_presentations", "instance_under_binder"]
     }
     fn rule(&self) -> String {
-        format!("{} rules over the Sym language (repeated variables, nested nodes, free and bound pattern slots, nested binders; each bound name bound once and not used free) x every injective renaming of the pattern's free slots into a 3 (thorough 4) name pool x every assignment of the pattern variables to 7-11 small terms (also terms mentioning a pattern slot's image or the binder in scope) x every presentation: the left-side instance inserted literally, or with every proper sub-term replaced by every alternative with the same free-slot set (other operator, permuted arguments => child symmetry, self-reference) and the union of the replaced pair, or two such replacements. E-graphs with a redundant slot are out of scope and skipped (counted). After ONE apply_rewrites with the single rule, lookup_rec_expr of the right-side instance must be Some and eq to the lookup of the left-side instance. Non-trivial = presentations other than the literal one.", RULES.len())
+        format!("{} rules over the Sym language (repeated variables, nested nodes, free and bound pattern slots, nested binders; each bound name bound once and not used free) x every injective renaming of the pattern's free slots into a 3 (thorough 4) name pool x every assignment of the pattern variables to 7-11 small terms (also terms mentioning a pattern slot's image or the binder in scope) x every presentation: the left-side instance inserted literally, or with every proper sub-term replaced by every alternative with the same free-slot set (other operator, permuted arguments => child symmetry, self-reference) and the union of the replaced pair, or two such replacements. E-graphs with a redundant slot are out of scope and skipped (counted). After ONE apply_rewrites with the single rule, lookup_rec_expr of the right-side instance must be Some and eq to the lookup of the left-side instance; the same is required for every other injective renaming of the pattern's slots into the instance's names whose left-side instance was represented beforehand (e.g. through a child symmetry). Non-trivial = presentations other than the literal one.", RULES.len())
     }
     fn assumptions(&self) -> Vec<String> {
         vec!["presentations that create a redundant slot or do not make the instance represented are out of the property's scope and are counted, not judged".into()]
@@ -461,6 +479,29 @@ impl Prop for FiresProp {
         }
         let lhs_i = p_inst(&lhs_p, &slots, &c.vars);
         let rhs_i = p_inst(&rhs_p, &slots, &c.vars);
+        // all other injective renamings of the pattern's free slots into the names of the planted instance
+        let mut free = Vec::new();
+        p_slots(&lhs_p, &mut Vec::new(), &mut free, &mut Vec::new());
+        let mut names: Vec<Name> = lhs_i.fv().into_iter().filter(|n| *n < 100).collect();
+        for f in &free {
+            if !names.contains(&c.slots[f]) {
+                names.push(c.slots[f]);
+            }
+        }
+        let mut alts: Vec<(T, T)> = Vec::new();
+        if free.len() <= 3 && names.len() <= 4 {
+            for img in injections(free.len(), &names) {
+                let mut sl = slots.clone();
+                for (f, n) in free.iter().zip(img.iter()) {
+                    sl.insert(f.clone(), *n);
+                }
+                let l2 = p_inst(&lhs_p, &sl, &c.vars);
+                if l2 != lhs_i {
+                    alts.push((l2, p_inst(&rhs_p, &sl, &c.vars)));
+                }
+            }
+        }
+        let alts = std::sync::Arc::new(alts);
         let mut out = Exec::default();
         let vars_repeated = RULES[seg].1.matches("?x").count() > 1;
         for pr in presentations(&lhs_i) {
@@ -469,7 +510,8 @@ impl Prop for FiresProp {
             let nun = pr.unions.len();
             let sym_union = pr.unions.iter().any(|(a, b)| a.op == b.op && a.fv() == b.fv() && a != b);
             let rule = seg;
-            let r = fresh_thread(move || run_case(rule, &l2, &r2, &pr));
+            let alts2 = alts.clone();
+            let r = fresh_thread(move || run_case(rule, &l2, &r2, &pr, &alts2));
             out.traces += 1;
             out.transitions += 1 + nun as u64;
             match r {
